@@ -1,6 +1,7 @@
 package interpreter
 
 import (
+	"math/big"
 	"slices"
 
 	"github.com/formancehq/numscript/internal/parser"
@@ -91,7 +92,18 @@ func (st *programState) runBalancesQuery() error {
 	// reset batch query
 	st.CurrentBalanceQuery = BalanceQuery{}
 
-	st.CachedBalances = balances
+	// merge the answer into the cache: what was already known is kept, and the
+	// amounts are copied so that the maps owned by the store are never mutated
+	for account, accountBalances := range balances {
+		cached := defaultMapGet(st.CachedBalances, account, func() AccountBalance {
+			return AccountBalance{}
+		})
+		for asset, amount := range accountBalances {
+			if _, ok := cached[asset]; !ok && amount != nil {
+				cached[asset] = new(big.Int).Set(amount)
+			}
+		}
+	}
 	return nil
 }
 
